@@ -291,13 +291,13 @@ Lemma opt_guard_wf x : opt_guard x = true -> opt_wf x = true.
 Proof. destruct x as [a|]; [|reflexivity]. cbn. intros H. apply andb_true_iff in H. tauto. Qed.
 
 Lemma class_none_tree_ok e x y :
-  opt_guard x = true -> opt_guard y = true -> obs_class x y (OEq e (true, true, true, true)) = None ->
+  opt_guard x = true -> opt_guard y = true -> obs_scope x y (OEq e (true, true, true, true)) = None ->
   has_durp e = false /\ tree_ok e x = true /\ tree_ok e y = true.
 Proof.
-  intros Gx Gy. cbn [obs_class]. destruct (has_durp e); [discriminate|]. intros H. split; [reflexivity|].
+  intros Gx Gy. cbn [obs_scope]. destruct (has_durp e); [discriminate|]. intros H. split; [reflexivity|].
   unfold tree_ok, cfg_nd. rewrite Gx, Gy. cbn [andb].
   destruct (existsb is_dur (cfg_vs e)); [|split; reflexivity]. cbn [andb negb orb] in *.
-  destruct (opt_sat x), (opt_sat y); try discriminate H. split; reflexivity.
+  destruct (opt_wide x), (opt_wide y); try discriminate H. split; reflexivity.
 Qed.
 
 Lemma default_ideal_is_proto x y : opt_wf x = true -> opt_wf y = true ->
@@ -312,9 +312,9 @@ Theorem obs_sound : forall x y ps o,
   ps = (proto_equal (strip_opt x) (strip_opt y), proto_equal (strip_opt y) (strip_opt x)) ->
   agrees_obs x y o = true ->
   match o with
-  | OEq e _ => obs_class x y (OEq e (true, true, true, true)) = None
+  | OEq e _ => obs_scope x y (OEq e (true, true, true, true)) = None
   | OComb _ _ _ _ => True
-  | OTree t _ => obs_class x y (OTree t (true, true, true, true)) = None
+  | OTree t _ => obs_scope x y (OTree t (true, true, true, true)) = None
   end ->
   ok_obs x y ps o = true.
 Proof.
@@ -338,7 +338,7 @@ Proof.
     apply list_b4_eq in A1. apply b4_eqb_eq in A2. subst comps v.
     pose proof (comb_model_ok is_or es x y) as K. cbn [ok_obs] in K |- *. exact K.
   - cbn [agrees_obs] in A. apply b4_eqb_eq in A. subst v. cbn [obs_guard] in Go.
-    assert (C' : obs_class x y (OEq (EAnd (tree_leaves t)) (true, true, true, true)) = None) by exact C.
+    assert (C' : obs_scope x y (OEq (EAnd (tree_leaves t)) (true, true, true, true)) = None) by exact C.
     destruct (class_none_tree_ok (EAnd (tree_leaves t)) x y Gx Gy C') as (Nd & Tx & Ty).
     pose proof Nd as Nd'. unfold has_durp in Nd'. cbn [cfg_vs] in Nd'.
     pose proof Go as Go'. unfold ecfg_guard in Go'. cbn [cfg_vs] in Go'.
@@ -390,14 +390,14 @@ Qed.
    judgement is proved (KColl is judged by the same predicate but its soundness is not proved here;
    the theorems behind it are those of Cmp/CollEquivProofs.v) *)
 Definition stream_scope (e : ecfg) (seed : option cval) (writes : list cval) : bool :=
-  negb (has_durp e) && (cfg_nd (cfg_vs e) || (negb (opt_sat seed) && forallb (fun w => negb (has_sat_duration w)) writes)).
+  negb (has_durp e) && (cfg_nd (cfg_vs e) || (negb (opt_wide seed) && forallb (fun w => negb (has_wide_nanos w)) writes)).
 Definition in_scope (c : c16case) : bool :=
   match unwrap c with
   | KPair x y _ _ os =>
       forallb (fun o => match o with
-                        | OEq e _ => match obs_class x y (OEq e (true, true, true, true)) with None => true | Some _ => false end
+                        | OEq e _ => match obs_scope x y (OEq e (true, true, true, true)) with None => true | Some _ => false end
                         | OComb _ _ _ _ => true
-                        | OTree t _ => match obs_class x y (OTree t (true, true, true, true)) with None => true | Some _ => false end
+                        | OTree t _ => match obs_scope x y (OTree t (true, true, true, true)) with None => true | Some _ => false end
                         end) os
   | KStream e seed writes _ => stream_scope e seed writes
   | KCollStream e seed writes _ => stream_scope e (Some seed) writes
@@ -413,7 +413,7 @@ Proof.
   destruct (cfg_nd (cfg_vs e)) eqn:N; cbn [orb] in *.
   - split; [reflexivity|]. apply forallb_forall. intros w Hw. rewrite forallb_forall in Gw. rewrite (Gw _ Hw). reflexivity.
   - apply andb_true_iff in S2. destruct S2 as [S2 S3]. split; [exact S2|].
-    apply forallb_forall. intros w Hw. rewrite forallb_forall in Gw, S3. cbn [opt_sat]. rewrite (Gw _ Hw), (S3 _ Hw). reflexivity.
+    apply forallb_forall. intros w Hw. rewrite forallb_forall in Gw, S3. cbn [opt_wide]. rewrite (Gw _ Hw), (S3 _ Hw). reflexivity.
 Qed.
 
 Theorem judge_sound : forall c,
@@ -431,8 +431,8 @@ Proof.
     apply forallb_forall. intros o Ho. rewrite forallb_forall in A3, G3, S.
     apply (obs_sound x y ps o Gx Gy (G3 _ Ho) Hps (A3 _ Ho)).
     specialize (S _ Ho). destruct o as [e v| |t v]; [|exact I|].
-    + destruct (obs_class x y (OEq e (true, true, true, true))); [discriminate S|reflexivity].
-    + destruct (obs_class x y (OTree t (true, true, true, true))); [discriminate S|reflexivity].
+    + destruct (obs_scope x y (OEq e (true, true, true, true))); [discriminate S|reflexivity].
+    + destruct (obs_scope x y (OTree t (true, true, true, true))); [discriminate S|reflexivity].
   - cbn [agrees_core guard_core ok_core] in *.
     apply andb_true_iff in G. destruct G as [G Ge]. apply andb_true_iff in G. destruct G as [Gs Gw].
     destruct (stream_scope_tree_ok e seed writes Gs Gw S) as (Nd & Ts & Tw).
